@@ -135,7 +135,7 @@ PROPS['C12'] = dict(
 import c12 as _c12
 PROPS['C12']['extra'] = _c12.prestart_orders
 PROPS['C18'] = dict(
-    modules=['SimProc.Props.C18', 'SimProc.Props.C18W'], prop_files=['SimProc/Props/C18.lean', 'SimProc/Props/C18W.lean'],
+    modules=['SimProc.Props.C18', 'SimProc.Props.C18W', 'SimProc.Props.C18D'], prop_files=['SimProc/Props/C18.lean', 'SimProc/Props/C18W.lean', 'SimProc/Props/C18D.lean'],
     # sys: schedulers constructed while the simulation runs (timetable anchored at the construction time)
     families=[('sched', 300, 6000), ('sys', 80, 1500)],
     tags=tags(*BASE, 's', 'rec'),
@@ -247,8 +247,8 @@ PROPS['C11'] = floor_prop(
     ('rec resource_update',), 'non-trivial = a pool changed',
     families=[('floorp', 120, 2500), ('floorm', 80, 1500), ('floorc', 60, 1000)])
 PROPS['C13'] = floor_prop(
-    'C13', ['SimProc.Props.C13', 'SimProc.Props.C06W', 'SimProc.Props.C06T', 'SimProc.Props.C13W'],
-    ['SimProc/Props/C13.lean', 'SimProc/Props/C06W.lean', 'SimProc/Props/C06T.lean', 'SimProc/Props/C13W.lean'],
+    'C13', ['SimProc.Props.C13', 'SimProc.Props.C06W', 'SimProc.Props.C06T', 'SimProc.Props.C13W', 'SimProc.Props.C13Q'],
+    ['SimProc/Props/C13.lean', 'SimProc/Props/C06W.lean', 'SimProc/Props/C06T.lean', 'SimProc/Props/C13W.lean', 'SimProc/Props/C13Q.lean'],
     {'d': _c.fields('part', 'out', 'down', 'up', 'use'), 'res': _c.only(('shut', 'restored', 'hook')),
      'rec': _c.only(('device_failure',)), 'now': None},
     ('rec device_failure', 'res shut'), 'implementation traces are produced with the deep-copy probe (a finished part kept through '
